@@ -18,6 +18,9 @@ import (
 	"errors"
 )
 
+// maxNestingDepth bounds the recursion of parseTerm and parseRelation; a goroutine stack overflow can't be recovered from.
+const maxNestingDepth = 1024
+
 type termType int
 
 const (
@@ -58,6 +61,11 @@ const (
 // type: identifier | identifier '<' type '>'
 //
 func parseTerm(l *lexer, t token) (idempotent bool, typ termType, err error) {
+	if l.depth >= maxNestingDepth {
+		return false, termInvalid, errors.New("term is nested too deeply")
+	}
+	l.depth++
+	defer func() { l.depth-- }()
 	switch t {
 	case tkInteger: // Integer lister
 		return true, termIntegerLiteral, nil
